@@ -973,4 +973,4 @@ func dedupS(s []string) []string {
 
 func TestC14List(t *testing.T) { propList.Check(t, st) }
 
-func TestReplay(t *testing.T) { vstat.RunReplays(t, propC14, propEntry, propList, propC14Net) }
+func TestReplay(t *testing.T) { vstat.RunReplays(t, propC14, propEntry, propList, propC14Net, propC14Idle) }
